@@ -77,6 +77,25 @@ def register(gen, T):
         # the storage-class loop of parse_globaltype (Model.SlotsFront.storageLoop / isExternStorage)
         STORAGE_LOOP = ('let mut global_storage = None; for modifier in &global_type.modifiers.modifiers { let next_gs = match &modifier.node { ast::TypeModifier::Extern => ir::GlobalStorage::Extern, ast::TypeModifier::Static => ir::GlobalStorage::Static, ast::TypeModifier::GroupShared => ir::GlobalStorage::GroupShared, _ => continue, }; if let Some((current_gs, current_source)) = global_storage { if current_gs == next_gs { } else { return Err(TyperError::ModifierConflict( modifier.node, modifier.location, current_source, )); } } else { global_storage = Some((next_gs, modifier.node)); } } let global_storage = global_storage .map(|(gs, _)| gs) .unwrap_or(ir::GlobalStorage::Extern);')
         CB_BINDLESS_TAIL = ('if attribute_result.is_bindless { let location = cb .attributes .iter() .filter_map(|attribute| attribute.name.last()) .find(|leaf| leaf.node == "bindless") .map(|leaf| leaf.location) .unwrap_or(cb_ir.name.location); return Err(TyperError::GlobalAttributeUnknown( String::from("bindless"), location, )); } cb_ir.members = members; context.insert_cbuffer(id)?; Ok(ir::RootDefinition::ConstantBuffer(id))')
+        def lang_binding_writers():
+            import os
+            assigns, inits = [], []
+            for top in ["typer/src", "ir/src", "src", "hlsl/src", "msl/src", "parser/src", "ast/src"]:
+                root = os.path.join(T.REPO, top)
+                for dirpath, _, files in sorted(os.walk(root)):
+                    for fn in sorted(files):
+                        if not fn.endswith(".rs"):
+                            continue
+                        rel = os.path.relpath(os.path.join(dirpath, fn), T.REPO)
+                        text = normws(T.src(rel))
+                        n = len(re.findall(r'\blang_(?:slot|binding)(?:\s*\.\s*\w+)?\s*=(?!=)', text))
+                        if n:
+                            assigns.append((rel, n))
+                        for m in re.finditer(r'\blang_(?:slot|binding): ([^,}]*),', text):
+                            if m.group(1).strip() != "LanguageBinding":   # the field declarations of the two structs
+                                inits.append((rel, m.group(1).strip()))
+            return (sorted(assigns), sorted(inits))
+
         ty_storage = normws(fn_body(ty_src, "parse_globaltype"))
         ty_u32 = normws(fn_body(ty_src, "parse_expr_as_u32"))
         gv_fresh = ("let var_id = context.insert_global(name.clone(), type_id, storage_class)?; "
@@ -175,6 +194,15 @@ def register(gen, T):
                               ty_insert) is not None
                 and len(re.findall(r'global_registry\.push', ty_insert)) == 1
                 and re.search(r'Ok\(id\)$', ty_insert) is not None),
+            # nobody else writes a language binding: assignments only in globals.rs (the six mirrored ones), struct-literal
+            # initialisations only `default()` (new global, new cbuffer, intrinsic globals) or the cbuffer's own binding
+            # (simplify_cbuffers)
+            ("langBindingHasNoOtherWriter", lambda: lang_binding_writers() == (
+                [("typer/src/typer/globals.rs", 6)],
+                [("ir/src/intrinsic_data.rs", "LanguageBinding::default()"),
+                 ("ir/src/simplify_cbuffers.rs", "cbuffer.lang_binding"),
+                 ("typer/src/typer/globals.rs", "ir::LanguageBinding::default()"),
+                 ("typer/src/typer/scopes.rs", "ir::LanguageBinding::default()")])),
             ("annotationLoopShape", lambda: ty_gv.count(gv_ann_loop) == 1),
             ("attributeOverridesAfterAnnotations", lambda: ty_gv.endswith(gv_ann_loop + gv_tail)),
             ("staticSamplerNeedsExtern", lambda: re.search(
